@@ -123,7 +123,7 @@ def gen_case(rng):
     # a time bias addressed to a sensor that has been removed is an invalid scenario, not a subject of the property
     if any(e["kind"] == "agent_removal" and e["agent_type"] == "sensor" for e in events):
         events = [e for e in events if not (e["kind"] == "sensor_time_bias" and e["sensor"] == S_IDS[1])] or events[:1]
-    return {"kind": "case", "start": start.isoformat(), "step": step, "n": n, "events": events, "model": "two_body",
+    return {"kind": "case", "start": start.isoformat(), "step": step, "n": n, "events": events, "model": rng.choice(["two_body"] * 4 + ["special_perturbations"]),
             "visible": rng.random() < 0.5}
 
 
@@ -196,7 +196,7 @@ def build_cfg(case):
             evs.append({"scope": "observation_generation", "scope_instance_id": e["sensor"], "start_time": sk.iso(t),
                         "end_time": sk.iso(start + timedelta(seconds=e["end"])), "event_type": "sensor_time_bias", "applied_bias": e["bias"]})
     cfg = sk.scenario_cfg(start, start + timedelta(seconds=(n + 2) * step), step, engines, truth_only=False, model=case.get("model", "two_body"),
-                          events=evs, seed=7)
+                          filter_model="two_body", events=evs, seed=7)
     return cfg
 
 
@@ -432,6 +432,8 @@ def eval_case(ctx, case):
                           f"planned impulse at +{e['off']}s on target {tid} changed the estimate {len(napp_est)} time(s) (expected {want_est})", wit, mon="impulse_applied_once")
             else:
                 ctx.check(len(napp_truth) <= same_time, "impulse-applications-truth-final", f"impulse at the final epoch applied {len(napp_truth)} times", wit, mon="impulse_applied_once")
+        if case.get("model", "two_body") != "two_body":
+            continue  # perturbed truth: no closed form; the application counter above decides
         if len({e["off"] for e in imps}) != len(imps):
             continue  # simultaneous impulses on one target: judged by the application counter above
         if any(e["off"] == t_final for e in imps):
